@@ -9,8 +9,9 @@
 //        -> m0..m(n-1) | V | a mod p_i ... | ck_k (k=1..n-1) | V2
 //   fixed <hist> <tt> n p1..pn r1..rn                RNSsystemFixed<Integer>, residues in a vector<tt>  -> V
 //   cra <dom> <reduce 1|0> M D A e                   ChineseRemainder<IntegerDom,Dom,reduce>  -> res
-//   poly <hist> p n a1..an r1..rn d c0..cd           Poly1CRT<Modular<int64_t>> over GF(p)
+//   poly <hist> <dom> p n a1..an r1..rn d c0..cd     Poly1CRT<dom> over GF(p)
 //        -> coefficients of RnsToRing(r) (low degree first, degree-stripped) | evaluations of the polynomial c at a_i
+//           | size points | ck_k as "deg coeffs" for k = 1..n-1 | 1 iff a second RnsToRing gives the same polynomial
 //
 // hist (how the system object was obtained):
 //   fresh       constructed from the primes
@@ -199,22 +200,24 @@ static std::string run_cra(const Integer& M, const Integer& Dm, const Integer& A
 }
 
 // ------------------------------------------------------------------ Poly1CRT
+template <class F_t>
 static std::string run_poly(const std::string& hist, const Integer& p, const IV& A, const IV& R, const IV& C) {
-    typedef Modular<int64_t> F_t;
     typedef Poly1CRT<F_t> CRT;
     F_t F(p);
-    CRT::array_T pts(A.size()), rs(R.size());
+    typename CRT::array_T pts(A.size()), rs(R.size());
     for (size_t i = 0; i < A.size(); ++i) { F.init(pts[i], A[i]); F.init(rs[i], R[i]); }
-    CRT* S = 0; CRT* aux = 0;
-    CRT::Element dumpP;
+    CRT* S = 0; CRT* aux = 0; CRT* aux2 = 0;
+    typename CRT::Element dumpP;
+    typename CRT::array_T ones(A.size(), F.one);
     if (hist == "fresh") S = new CRT(F, pts, Indeter("X"));
-    else if (hist == "reuse") { S = new CRT(F, pts, Indeter("X")); CRT::array_T ones(A.size(), F.one); S->RnsToRing(dumpP, ones); }
+    else if (hist == "reuse") { S = new CRT(F, pts, Indeter("X")); S->RnsToRing(dumpP, ones); }
     else if (hist == "copycold") { aux = new CRT(F, pts, Indeter("X")); S = new CRT(*aux); }
-    else if (hist == "copywarm") { aux = new CRT(F, pts, Indeter("X")); CRT::array_T ones(A.size(), F.one); aux->RnsToRing(dumpP, ones); S = new CRT(*aux); }
+    else if (hist == "copywarm") { aux = new CRT(F, pts, Indeter("X")); aux->RnsToRing(dumpP, ones); S = new CRT(*aux); }
+    else if (hist == "copy2") { aux = new CRT(F, pts); aux->Reciprocals(); aux2 = new CRT(*aux); delete aux; aux = 0; S = new CRT(*aux2); }
     else return "BAD-HIST";
-    delete aux; aux = 0;
+    delete aux; aux = 0; delete aux2; aux2 = 0;
     std::ostringstream o;
-    CRT::Element I;
+    typename CRT::Element I;
     S->RnsToRing(I, rs);
     // strip leading zeros for a canonical print
     long d = (long)I.size() - 1;
@@ -222,12 +225,27 @@ static std::string run_poly(const std::string& hist, const Integer& p, const IV&
     Integer t;
     for (long i = 0; i <= d; ++i) o << F.convert(t, I[(size_t)i]) << " ";
     o << "| ";
-    CRT::Element Q(C.size());
+    typename CRT::Element Q(C.size());
     for (size_t i = 0; i < C.size(); ++i) F.init(Q[i], C[i]);
     { long dq = (long)Q.size() - 1; while (dq >= 0 && F.isZero(Q[(size_t)dq])) --dq; Q.resize((size_t)(dq + 1)); }
-    CRT::array_T ev;
+    typename CRT::array_T ev(A.size() + 2, F.one);                   // wrong size on entry: must be resized
     S->RingToRns(ev, Q);
     for (size_t i = 0; i < ev.size(); ++i) o << F.convert(t, ev[i]) << " ";
+    // accessors: size, points, and the reciprocal polynomials ck_k, k = 1..n-1, each as "deg c_0 .. c_deg"
+    o << "| " << S->size() << " ";
+    for (size_t i = 0; i < A.size(); ++i) o << F.convert(t, S->ith(i)) << " ";
+    o << "| ";
+    const typename CRT::array_E& ck = S->Reciprocals();
+    for (size_t k = 1; k < A.size() && k < ck.size(); ++k) {
+        const typename CRT::Element& c = (k & 1) ? ck[k] : S->reciprocal(k);
+        long dc = (long)c.size() - 1;
+        while (dc >= 0 && F.isZero(c[(size_t)dc])) --dc;
+        o << dc << " ";
+        for (long i = 0; i <= dc; ++i) o << F.convert(t, c[(size_t)i]) << " ";
+    }
+    o << "| ";
+    typename CRT::Element I2; S->RnsToRing(I2, rs);
+    o << (S->getpolydom().areEqual(I, I2) ? 1 : 0);
     delete S;
     return o.str();
 }
@@ -303,18 +321,22 @@ int main() {
                 else if (dom == "mint") out = red ? run_cra<Modular<Integer>, true>(M, D, A, e) : run_cra<Modular<Integer>, false>(M, D, A, e);
                 else out = "BAD-DOM";
             } else if (t[0] == "poly") {
-                const std::string hist = t[1];
-                Integer p = parseI(t[2]);
-                size_t n = (size_t)atol(t[3].c_str());
-                IV A, R, C; size_t k = 4;
+                const std::string hist = t[1], sub = t[2];
+                Integer p = parseI(t[3]);
+                size_t n = (size_t)atol(t[4].c_str());
+                IV A, R, C; size_t k = 5;
                 for (size_t i = 0; i < n; ++i) A.push_back(parseI(t[k++]));
                 for (size_t i = 0; i < n; ++i) R.push_back(parseI(t[k++]));
                 long d = atol(t[k++].c_str());
                 for (long i = 0; i <= d; ++i) C.push_back(parseI(t[k++]));
-                out = run_poly(hist, p, A, R, C);
+                if (sub == "mi64") out = run_poly<Modular<int64_t> >(hist, p, A, R, C);
+                else if (sub == "mdouble") out = run_poly<Modular<double> >(hist, p, A, R, C);
+                else if (sub == "mi32") out = run_poly<Modular<int32_t> >(hist, p, A, R, C);
+                else if (sub == "mu32") out = run_poly<Modular<uint32_t> >(hist, p, A, R, C);
+                else out = "BAD-DOM";
             }
         } catch (...) { out = "EXCEPTION"; }
-        std::cout << out << "\n";
+        std::cout << out << std::endl;      // flushed per line: a crash loses nothing
     }
     return 0;
 }
